@@ -1,4 +1,5 @@
 import Juniper.Proofs.StreamClose
+import Juniper.Proofs.StreamCloseMulti
 import Juniper.Proofs.StreamLog
 /-!
 # C09 — every stream handed to the library is closed exactly once, never used after (property
@@ -6,9 +7,17 @@ theorems, caller's-goroutine combinators)
 
 Sources carry ghost logs (`closes`, `after` = `Next` calls that arrived after a `Close`).
 `Forwards m m' proj`: the wrapper `m'` touches its inner stream only through at most one `m.step`
-per step of its own and its `Close` is exactly one `m.close`. The hypotheses `h… = true` are the
-presence facts regenerated from `stream.go` / `xrand.go` (`s.inner.Close()` in every wrapper's `Close`,
-`defer s.Close()` in every reducer): delete such a statement and the default `by decide` fails.
+per step of its own and its `Close` is exactly one `m.close`.
+
+**How the Go source enters.** The machines' `close` functions and the reducers' deferred `Close` are
+*defined by* the presence facts regenerated from `stream.go` / `xrand.go` (`s.inner.Close()` in every
+wrapper's `Close`; "the first statement is `defer s.Close()`" for every reducer and for
+`xrand.rSampleStream`; the range operand and body of `joinStream.Close`; the condition of
+`flattenStream.Close`). Each fact has a tie lemma `<fact>_fact : Gen.Comb.<fact> = true := by decide`
+(`Proofs/StreamFacts.lean`), and the `Forwards` / `*_reach` lemmas every theorem below is derived from
+*use* those lemmas in their proofs. No theorem of this file has a fact as a hypothesis: delete such a
+statement from the Go source and the tie lemma of that name — and with it every theorem here that
+depends on it — no longer builds.
 -/
 namespace Juniper.Props.C09
 open Juniper.Model.Stream Juniper.Gen.Comb
@@ -31,42 +40,42 @@ theorem pipeline_forwards {σ'' : Type u} {δ : Type v} {m : SM σ α} {m' : SM 
   h1.comp h2
 
 /-- every single-source wrapper of `stream.go` forwards -/
-theorem withPeek_close_once (m : SM σ α) (h : stPeekCloseForwards = true := by decide) :
+theorem withPeek_close_once (m : SM σ α) :
     Forwards m (withPeek m) (fun p => p.inner) :=
-  Juniper.Proofs.Skeleton.under Juniper.Proofs.Skeleton.Tie.stPeek (withPeek_forwards m h)
-theorem chunk_close_once (size : Int) (m : SM σ α) (h : stChunkCloseForwards = true := by decide) :
+  Juniper.Proofs.Skeleton.under Juniper.Proofs.Skeleton.Tie.stPeek (withPeek_forwards m)
+theorem chunk_close_once (size : Int) (m : SM σ α) :
     Forwards m (chunk size m) (fun st => st.inner) :=
-  Juniper.Proofs.Skeleton.under Juniper.Proofs.Skeleton.Tie.stChunk (chunk_forwards size m h)
-theorem compact_close_once (eq : α → α → Bool) (m : SM σ α) (h : stCompactCloseForwards = true := by decide) :
+  Juniper.Proofs.Skeleton.under Juniper.Proofs.Skeleton.Tie.stChunk (chunk_forwards size m)
+theorem compact_close_once (eq : α → α → Bool) (m : SM σ α) :
     Forwards m (compact eq m) (fun st => st.inner) :=
-  Juniper.Proofs.Skeleton.under Juniper.Proofs.Skeleton.Tie.stCompact (compact_forwards eq m h)
-theorem filter_close_once (keep : α → Except Err Bool) (m : SM σ α) (h : stFilterCloseForwards = true := by decide) :
+  Juniper.Proofs.Skeleton.under Juniper.Proofs.Skeleton.Tie.stCompact (compact_forwards eq m)
+theorem filter_close_once (keep : α → Except Err Bool) (m : SM σ α) :
     Forwards m (filter keep m) (fun st => st.inner) :=
-  Juniper.Proofs.Skeleton.under Juniper.Proofs.Skeleton.Tie.stFilter (filter_forwards keep m h)
-theorem map_close_once (f : α → Except Err β) (m : SM σ α) (h : stMapCloseForwards = true := by decide) :
+  Juniper.Proofs.Skeleton.under Juniper.Proofs.Skeleton.Tie.stFilter (filter_forwards keep m)
+theorem map_close_once (f : α → Except Err β) (m : SM σ α) :
     Forwards m (map f m) (fun st => st.inner) :=
-  Juniper.Proofs.Skeleton.under Juniper.Proofs.Skeleton.Tie.stMap (map_forwards f m h)
-theorem first_close_once (m : SM σ α) (h : stFirstCloseForwards = true := by decide) :
+  Juniper.Proofs.Skeleton.under Juniper.Proofs.Skeleton.Tie.stMap (map_forwards f m)
+theorem first_close_once (m : SM σ α) :
     Forwards m (first m) (fun st => st.inner) :=
-  Juniper.Proofs.Skeleton.under Juniper.Proofs.Skeleton.Tie.stFirst (first_forwards m h)
-theorem while_close_once (f : α → Except Err Bool) (m : SM σ α) (h : stWhileCloseForwards = true := by decide) :
+  Juniper.Proofs.Skeleton.under Juniper.Proofs.Skeleton.Tie.stFirst (first_forwards m)
+theorem while_close_once (f : α → Except Err Bool) (m : SM σ α) :
     Forwards m (while_ f m) (fun st => st.inner) :=
-  Juniper.Proofs.Skeleton.under Juniper.Proofs.Skeleton.Tie.stWhile (while_forwards f m h)
-theorem flattenSlices_close_once (m : SM σ (List α)) (h : stFlattenSlicesCloseForwards = true := by decide) :
+  Juniper.Proofs.Skeleton.under Juniper.Proofs.Skeleton.Tie.stWhile (while_forwards f m)
+theorem flattenSlices_close_once (m : SM σ (List α)) :
     Forwards m (flattenSlices m) (fun st => st.inner) :=
-  Juniper.Proofs.Skeleton.under Juniper.Proofs.Skeleton.Tie.stFlattenSlices (flattenSlices_forwards m h)
+  Juniper.Proofs.Skeleton.under Juniper.Proofs.Skeleton.Tie.stFlattenSlices (flattenSlices_forwards m)
 /-- `Flatten` forwards to its outer stream … -/
-theorem flatten_outer_close_once (mo : SM σ τ) (mi : SM τ α) (h : stFlattenCloseForwards = true := by decide) :
+theorem flatten_outer_close_once (mo : SM σ τ) (mi : SM τ α) :
     Forwards mo (flatten mo mi) (fun st => st.outer) :=
-  Juniper.Proofs.Skeleton.under Juniper.Proofs.Skeleton.Tie.stFlatten (flatten_outer_forwards mo mi h)
+  Juniper.Proofs.Skeleton.under Juniper.Proofs.Skeleton.Tie.stFlatten (flatten_outer_forwards mo mi)
 
 /-- `Runs` used through the documented protocol (outer `Next`, read the inner stream, optionally close
 it, advance) forwards to its source: both ports move the source by at most one step, the outer
 `Close` closes it (through the shared peekable) exactly once. -/
 theorem runs_close_once (same : α → α → Bool) (take : Option Nat) (cl : Bool) (m : SM σ α)
-    (hR : stRunsCloseForwards = true := by decide) (hP : stPeekCloseForwards = true := by decide) :
+    :
     Forwards m (runsProto same take cl m) (fun st => st.rs.pk.inner) :=
-  Juniper.Proofs.Skeleton.under Juniper.Proofs.Skeleton.Tie.stRuns (runsProto_forwards same take cl m hR hP)
+  Juniper.Proofs.Skeleton.under Juniper.Proofs.Skeleton.Tie.stRuns (runsProto_forwards same take cl m)
 
 /-- non-vacuity: a two-stage pipeline over the logged source, consumer stops after three calls -/
 example : let m' := chunk 2 (filter (fun (n : Nat) => .ok (n % 2 == 0)) src)
@@ -126,7 +135,7 @@ theorem flatten_closes_outer_once (mi : SM τ α) (s0 : Src τ) (h0 : s0.closes 
     ((flatten src mi).close (afterS (flatten src mi) cs ⟨s0, none, []⟩)).outer.after = s0.after :=
   close_once (flatten_outer_close_once src mi) ⟨s0, none, []⟩ h0 cs
 
-/-- `Join` closes every argument exactly once is `join_rest_closed_once`; `Runs`: -/
+/-- `Join` closes every argument exactly once: `join_rest_closed_once`, `join_pipelines_closed_once`; `Runs`: -/
 theorem runs_closes_source_once (same : α → α → Bool) (take : Option Nat) (cl : Bool) (s0 : Src α)
     (h0 : s0.closes = 0) (cs : List Bool) :
     ((runsProto same take cl src).close (afterS (runsProto same take cl src) cs ⟨⟨⟨s0, none⟩, 0, none⟩, none⟩)).rs.pk.inner.closes = 1 ∧
@@ -135,6 +144,17 @@ theorem runs_closes_source_once (same : α → α → Bool) (take : Option Nat) 
 
 example : ((first src).close (afterS (first src) [true, true, false, true] ⟨Src.of [Ev.item 1, .item 2, .item 3], 1⟩)).inner.closes = 1 := by
   decide
+
+/-- **`WithPeek` used through `Peek` *and* `Next`**, in any order, under any contexts, over any fault script,
+then `Close`: the source has been closed exactly once and not pulled afterwards (`withPeek_closes_source_once`
+is the `Next`-only case). -/
+theorem peek_interleave_closes_once {α : Type} (s0 : Src α) (h0 : s0.closes = 0) (ops : List SPeekOp) :
+    (peekClose src (speekRun src ops ⟨s0, none⟩).2).inner.closes = 1 ∧
+    (peekClose src (speekRun src ops ⟨s0, none⟩).2).inner.after = s0.after :=
+  Juniper.Proofs.StreamDen.peek_interleave_closes_once s0 h0 ops
+
+example : (peekClose src (speekRun src [.peek true, .peek false, .next true, .peek true]
+    ⟨Src.of [Ev.item 1, .transient 3, .item 2], none⟩).2).inner.closes = 1 := by decide
 
 /-! ### pipelines of arbitrary depth: the source's ghost call log -/
 
@@ -204,57 +224,152 @@ example :
 
 end pipelines
 
+/-! ### streams obtained on the way: Flatten's inner streams, Join's later arguments — over raw sources,
+over pipelines, and under further stages -/
+
 /-- **`flatten_inner_closed_once`**: … and every inner stream it obtained (fresh, over logged sources)
-is closed exactly once — when it ended, or by `Close` — and never pulled afterwards. -/
+is closed exactly once — when it ended, or by `Close` — and never pulled afterwards.
+(Uses `stFlattenClosesEnded_fact`, `stFlattenClearsCurr_fact`, `stFlattenCloseCurr_fact`.) -/
 theorem flatten_inner_closed_once {mo : SM σ (Src α)}
-    (hfresh : ∀ s c x s', mo.step s c = (.item x, s') → Open0 x) (so : σ) (cs : List Bool)
-    (hK : stFlattenCloseCurr = true := by decide) :
+    (hfresh : ∀ s c x s', mo.step s c = (.item x, s') → Open0 x) (so : σ) (cs : List Bool) :
     let st' := (flatten mo src).close (afterS (flatten mo src) cs ⟨so, none, []⟩)
     ∀ x ∈ st'.finished ++ st'.curr.toList, Closed1 x :=
-  Juniper.Proofs.StreamDen.flatten_inner_closed_once hfresh so cs hK
+  Juniper.Proofs.StreamDen.flatten_inner_closed_once hfresh so cs
+
+/-- **`flatten_pipelines_inner_closed_once`**: the same when the inner streams are *pipelines* (states of
+any machine `mi` that forwards to a logged source, e.g. an `SPipe` pipeline, `Runs`, another `Flatten`'s
+outer side) and the outer stream is any machine that, from the states reachable from `so` (invariant
+`P`), only hands out fresh ones: the source behind every inner stream obtained is closed exactly once,
+never pulled afterwards. -/
+theorem flatten_pipelines_inner_closed_once {mo : SM σ' σ} {mi : SM σ β} {proj : σ → Src α}
+    (h : Forwards src mi proj) (P : σ' → Prop) (hP : ∀ s c, P s → P (mo.step s c).2)
+    (hfresh : ∀ s c x s', P s → mo.step s c = (.item x, s') → Open0 (proj x)) (so : σ') (hso : P so) (cs : List Bool) :
+    let st' := (flatten mo mi).close (afterS (flatten mo mi) cs ⟨so, none, []⟩)
+    ∀ x ∈ st'.finished ++ st'.curr.toList, Closed1 (proj x) :=
+  Juniper.Proofs.StreamDen.flatten_pipelines_inner_closed_once h P hP hfresh so hso cs
+
+/-- **one run of `Flatten`, outer and inner streams together**: the outer stream is a scripted stream
+(items, transient and fatal failures) of fresh scripted streams (each with its own faults). After any
+run under any contexts and `Close`: the outer stream was closed exactly once and not pulled afterwards
+**and** every inner stream obtained was closed exactly once and not pulled afterwards. -/
+theorem flatten_scripted_closed_once (so : Src (Src α)) (h0 : so.closes = 0) (hfr : FreshScript so) (cs : List Bool) :
+    let st' := (flatten src src).close (afterS (flatten src src) cs ⟨so, none, []⟩)
+    st'.outer.closes = 1 ∧ st'.outer.after = so.after ∧ ∀ x ∈ st'.finished ++ st'.curr.toList, Closed1 x :=
+  Juniper.Proofs.StreamDen.flatten_scripted_closed_once so h0 hfr cs
+
+/-- … and none of the inner streams the outer stream handed out is missing from the lists that statement
+ranges over: their number is the number of items pulled from the outer stream (any inner machine). -/
+theorem flatten_none_lost {τ : Type w} (mi : SM τ β) (so : Src τ) (h0 : so.pulled = 0) (cs : List Bool) :
+    let st' := (flatten src mi).close (afterS (flatten src mi) cs ⟨so, none, []⟩)
+    (st'.finished ++ st'.curr.toList).length = st'.outer.pulled :=
+  Juniper.Proofs.StreamDen.flatten_none_lost mi so h0 cs
+
+/-- non-vacuity: inner stream 1 ends (closed when it ended), the outer stream then fails transiently,
+inner stream 2 is abandoned after one item (closed by `Close`), the outer stream is closed once -/
+example :
+    let so : Src (Src Nat) := Src.of [.item (Src.of [.item 1]), .transient 7, .item (Src.of [.item 2, .item 3]), .fatal 9]
+    let st' := (flatten src src).close (afterS (flatten src src) [true, true, true, true, true, true] ⟨so, none, []⟩)
+    st'.finished.map (fun x => (x.closes, x.after, x.calls)) = [(1, 0, 2)] ∧
+    st'.curr.map (fun x => (x.closes, x.after, x.pulled)) = some (1, 0, 1) ∧
+    (st'.outer.closes, st'.outer.after) = (1, 0) := by decide
+
+example : FreshScript (Src.of [.item (Src.of [Ev.item 1]), .transient 7, .item (Src.of [.item 2, .item 3]), .fatal 9] : Src (Src Nat)) := by
+  intro x hx
+  simp [Src.of] at hx
+  rcases hx with rfl | rfl <;> exact ⟨rfl, rfl⟩
 
 /-- **`join_rest_closed_once`**: the arguments of `Join` that ended were closed at their end, the
-remaining ones are closed by `Close`; each exactly once. -/
-theorem join_rest_closed_once (ss : List (Src α)) (hss : ∀ x ∈ ss, Open0 x) (cs : List Bool)
-    (hF : stJoinCloseForwards = true := by decide) :
+remaining ones — the one being read and those never reached — are closed by `Close`; each exactly
+once, and none of the arguments is lost. (Uses `stJoinClosesEnded_fact`, `stJoinAdvances_fact`,
+`stJoinCloseForwards_fact`: presence, range operand and body of the loop of `joinStream.Close`.) -/
+theorem join_rest_closed_once (ss : List (Src α)) (hss : ∀ x ∈ ss, Open0 x) (cs : List Bool) :
     let st' := (join src).close (afterS (join src) cs ⟨ss, []⟩)
-    ∀ x ∈ st'.finished ++ st'.remaining, Closed1 x :=
-  Juniper.Proofs.StreamDen.join_rest_closed_once ss hss cs hF
+    (∀ x ∈ st'.finished ++ st'.remaining, Closed1 x) ∧ (st'.finished ++ st'.remaining).length = ss.length :=
+  Juniper.Proofs.StreamDen.join_pipelines_closed_once (mi := src) (proj := id) (Forwards.refl src) ss hss cs
+
+/-- **`join_pipelines_closed_once`**: `Join(p₁, …, pₙ)` where every argument is a *pipeline* (a state of
+any machine that forwards to a logged source): after any run and `Close` the source behind every
+argument has been closed exactly once and not pulled afterwards; none is lost. -/
+theorem join_pipelines_closed_once {mi : SM σ β} {proj : σ → Src α} (h : Forwards src mi proj) (ss : List σ)
+    (hss : ∀ s ∈ ss, Open0 (proj s)) (cs : List Bool) :
+    let st' := (join mi).close (afterS (join mi) cs ⟨ss, []⟩)
+    (∀ x ∈ st'.finished ++ st'.remaining, Closed1 (proj x)) ∧ (st'.finished ++ st'.remaining).length = ss.length :=
+  Juniper.Proofs.StreamDen.join_pipelines_closed_once h ss hss cs
+
+/-- **stages on top of a `Join`** (`Filter(Chunk(Join(p₁, …, pₙ)))`, any forwarding machine `m'` over the
+`Join`): the same conclusion for the whole pipeline's `Close`. -/
+theorem stages_over_join_closed_once {σ'' : Type w} {mi : SM σ β} {proj : σ → Src α} {m' : SM σ'' γ}
+    {q : σ'' → JoinSt σ} (h : Forwards src mi proj) (hq : Forwards (join mi) m' q) (t : σ'') (ss : List σ)
+    (ht : q t = ⟨ss, []⟩) (hss : ∀ s ∈ ss, Open0 (proj s)) (cs : List Bool) :
+    let st' := q (m'.close (afterS m' cs t))
+    (∀ x ∈ st'.finished ++ st'.remaining, Closed1 (proj x)) ∧ (st'.finished ++ st'.remaining).length = ss.length :=
+  Juniper.Proofs.StreamDen.stages_over_join_closed_once h hq t ss ht hss cs
+
+/-- **a reducer over a `Join` of pipelines** (`Collect(ctx, Join(p₁, …, pₙ))`): when `Collect` returns —
+value or error, any context — the source behind every argument has been closed exactly once. -/
+theorem collect_join_closes {mi : SM σ β} {proj : σ → Src α} (h : Forwards src mi proj) (ss : List σ)
+    (hss : ∀ s ∈ ss, Open0 (proj s)) (c : Bool) (fuel : Nat) :
+    let st' := (collect (join mi) c fuel ⟨ss, []⟩).2
+    (∀ x ∈ st'.finished ++ st'.remaining, Closed1 (proj x)) ∧ (st'.finished ++ st'.remaining).length = ss.length := by
+  obtain ⟨cs, hcs⟩ := collect_reach (join mi) c fuel ⟨ss, []⟩
+  intro st'
+  have : st' = (join mi).close (afterS (join mi) cs ⟨ss, []⟩) := hcs
+  rw [this]
+  exact Juniper.Proofs.StreamDen.join_pipelines_closed_once h ss hss cs
+
+/-- non-vacuity: three arguments, each a `Filter` pipeline over its own logged source; the consumer stops
+while the first is being read — the second and third are never reached — all three are closed exactly
+once by `Close` -/
+example :
+    let mi := filter (fun (n : Nat) => .ok (n % 2 == 0)) src
+    let ss : List (Wrap (Src Nat)) := [⟨Src.of [.item 2, .item 4]⟩, ⟨Src.of [.item 6]⟩, ⟨Src.of []⟩]
+    let st' := (join mi).close (afterS (join mi) [true] ⟨ss, []⟩)
+    (st'.finished ++ st'.remaining).map (fun x => (x.inner.closes, x.inner.after, x.inner.calls)) =
+      [(1, 0, 1), (1, 0, 0), (1, 0, 0)] := by decide
 
 example : Open0 (Src.of [Ev.item 1, .fatal 2] : Src Nat) := ⟨rfl, rfl⟩
 
-/-! ### reducers close on every path (value, error, panic-free or not, any context) -/
+/-! ### reducers close on every path (value, error, panic-free or not, any context)
 
-/-- `Collect` closes its stream exactly once, whatever happens (hypothesis: `defer s.Close()` is there). -/
+Each uses the tie lemma of its `defer` fact through its `*_reach` lemma (`stCollectDefersClose_fact`, … :
+"the first statement of the function is `defer s.Close()`"). -/
+
+/-- `Collect` closes its stream exactly once, whatever happens. -/
 theorem collect_closes {m' : SM σ' γ} {proj : σ' → Src α} (h : Forwards src m' proj) (t : σ')
-    (h0 : (proj t).closes = 0) (c : Bool) (fuel : Nat) (hd : stCollectDefersClose = true := by decide) :
+    (h0 : (proj t).closes = 0) (c : Bool) (fuel : Nat) :
     (proj (collect m' c fuel t).2).closes = 1 ∧ (proj (collect m' c fuel t).2).after = (proj t).after :=
-  reducer_closes h t h0 (collect_reach m' c fuel t hd)
+  reducer_closes h t h0 (collect_reach m' c fuel t)
 
+/-- `Reduce` (tie: `stReduceDefersClose_fact`). -/
 theorem reduce_closes {δ : Type x} {m' : SM σ' γ} {proj : σ' → Src α} (h : Forwards src m' proj) (t : σ')
-    (h0 : (proj t).closes = 0) (f : δ → γ → Except Err δ) (c : Bool) (fuel : Nat) (init : δ)
-    (hd : stReduceDefersClose = true := by decide) :
+    (h0 : (proj t).closes = 0) (f : δ → γ → Except Err δ) (c : Bool) (fuel : Nat) (init : δ) :
     (proj (reduce m' f c fuel init t).2).closes = 1 ∧ (proj (reduce m' f c fuel init t).2).after = (proj t).after :=
-  reducer_closes h t h0 (reduce_reach m' f c fuel init t hd)
+  reducer_closes h t h0 (reduce_reach m' f c fuel init t)
 
+/-- `Last` (tie: `stLastDefersClose_fact`); also when `n < 0` makes `make` panic. -/
 theorem last_closes {m' : SM σ' γ} {proj : σ' → Src α} (h : Forwards src m' proj) (t : σ')
-    (h0 : (proj t).closes = 0) (n : Int) (c : Bool) (fuel : Nat) (hd : stLastDefersClose = true := by decide) :
+    (h0 : (proj t).closes = 0) (n : Int) (c : Bool) (fuel : Nat) :
     (proj (last m' n c fuel t).2).closes = 1 ∧ (proj (last m' n c fuel t).2).after = (proj t).after :=
-  reducer_closes h t h0 (last_reach m' n c fuel t hd)
+  reducer_closes h t h0 (last_reach m' n c fuel t)
 
-/-- `One` (D8: the `defer` was missing — then `by decide` fails and the monitor shows the open source). -/
+/-- `One` (D8: the `defer` was missing — then `stOneDefersClose_fact` fails and the monitor shows the open source). -/
 theorem one_closes {m' : SM σ' γ} {proj : σ' → Src α} (h : Forwards src m' proj) (t : σ')
-    (h0 : (proj t).closes = 0) (c : Bool) (fuel : Nat) (hd : stOneDefersClose = true := by decide) :
+    (h0 : (proj t).closes = 0) (c : Bool) (fuel : Nat) :
     (proj (one m' c fuel t).2).closes = 1 ∧ (proj (one m' c fuel t).2).after = (proj t).after :=
-  reducer_closes h t h0 (one_reach m' c fuel t hd)
+  reducer_closes h t h0 (one_reach m' c fuel t)
 
-/-- `xrand.SampleStream` (as a reducer: reads to the end or the first error, then the deferred `Close`). -/
+/-- `xrand.SampleStream` = `rSampleStream(ctx, defaultRand{}, s, k)` (regenerated body `sampleStreamW`);
+`rSampleStream` as a reducer: reads to the end or the first error, then the deferred `Close`
+(tie: `sampleStreamDefersClose_fact`; control skeleton: `Tie.sample`). -/
 theorem sampleStream_closes {m' : SM σ' γ} {proj : σ' → Src α} (h : Forwards src m' proj) (t : σ')
-    (h0 : (proj t).closes = 0) (c : Bool) (fuel : Nat) (hd : sampleStreamDefersClose = true := by decide) :
+    (h0 : (proj t).closes = 0) (c : Bool) (fuel : Nat) :
     (proj (sampleCount m' c fuel t).2).closes = 1 ∧ (proj (sampleCount m' c fuel t).2).after = (proj t).after :=
-  reducer_closes h t h0 (sample_reach m' c fuel t hd)
+  reducer_closes h t h0 (sample_reach m' c fuel t)
 
 example : let r := one src true 10 (Src.of [Ev.item 1, .item 2] : Src Nat)
     r.1 = .error .moreThanOne ∧ r.2.closes = 1 ∧ r.2.after = 0 := by decide
+
+example : let r := sampleCount src true 10 (Src.of [Ev.item 1, .fatal 3] : Src Nat)
+    r.1 = .error (.fatal 3) ∧ r.2.closes = 1 ∧ r.2.after = 0 := by decide
 
 end Juniper.Props.C09
